@@ -59,7 +59,10 @@ on both real queues and compared with the model *and* with each other.
              (`does-not-terminate`), the worker skips the rest of its share and the run stops after that search.
 """
 import copy
+import os
 import signal
+import subprocess
+import sys
 from decimal import Decimal
 from fractions import Fraction
 
@@ -999,6 +1002,8 @@ DIRECTED_KINDS = ('ascending', 'descending', 'equal', 'alternating', 'churn')
 
 def directed_plan(tier):
     """(kind, number of tasks, size factor); at the native factor the sorted backend splits beyond ~22 000 entries."""
+    if os.environ.get(OPT_ENV):
+        return [('purge', 300, None), ('churn', 2000, None)]
     plan = [(k, 40000, None) for k in DIRECTED_KINDS] + [('purge', 300, None), ('purge', 3000, None)]
     plan += [('numeric-types', 4000, None), ('rejected-readds', 4000, None)]
     if tier != 'quick':
@@ -1057,6 +1062,46 @@ REDUCED = dict(tasks=TASKS[:3], prios=(None, 1, -1))
 SIX = ('equal6', 'rising6', 'falling6')
 
 
+OPT_ENV = 'VERIF_C10_OPTIMIZED_CHILD'    # set in the child that repeats two small searches under `python -O`
+
+
+def optimized_child(ctx, only=None):
+    """The statement does not depend on interpreter options.  `python -O` strips `assert` statements (and sets
+    __debug__ to False): a state change tucked into an assert disappears there.  Two small searches and the purge
+    scenarios are repeated in a child interpreter with PYTHONOPTIMIZE=1; every signature the child reports becomes a
+    violation here.  -> summary for the evidence file."""
+    import json
+    import shutil
+    import tempfile
+    out = tempfile.mkdtemp(prefix='c10-opt-', dir='/dev/shm' if os.path.isdir('/dev/shm') else None)
+    try:
+        env = dict(os.environ, PYTHONOPTIMIZE='1', VERIF_OUT=out, **{OPT_ENV: '1'})
+        cp = subprocess.run([sys.executable, os.path.join(core.VERIF, 'check'), 'C10', '--tier', 'quick'],
+                            capture_output=True, text=True, env=env, timeout=3600)
+        lines = cp.stdout.splitlines()
+        found = []
+        for i, l in enumerate(lines):
+            if l.strip().startswith('signature:'):
+                sig = l.strip()[len('signature:'):].strip().split('  (x')[0]
+                rest = [x.strip() for x in lines[i + 1:i + 4]]
+                found.append((sig, rest))
+        if cp.returncode not in (0, 1) and not found:
+            found.append(('C10|check crashed', [(cp.stdout + cp.stderr)[-400:]]))
+        summary = {'interpreter': 'PYTHONOPTIMIZE=1 (python -O): assert statements stripped', 'exit': cp.returncode,
+                   'searches': [l.strip() for l in lines if l.strip().startswith('size_factor=')]}
+        msgs = []
+        for sig, rest in found:
+            sig2 = 'C10|interpreter:python -O|' + sig[len('C10|'):] if sig.startswith('C10|') else 'C10|interpreter:python -O|' + sig
+            if only is None:
+                ctx.violation(sig2, {'kind': 'optimized-child', 'child_signature': sig, 'child_report': rest},
+                              'the same behaviour as without -O', 'violation reported by the check run under python -O')
+            elif only == sig:
+                msgs.append('%s %s' % (sig2, ' '.join(rest)))
+        return msgs if only is not None else summary
+    finally:
+        shutil.rmtree(out, ignore_errors=True)
+
+
 def plan(tier):
     """(Spec, max_depth) per search.  The native configuration never splits its BarrelList inside the bound (that is
     what the scaled configurations are for); it checks the unscaled code paths the queues use at small sizes.
@@ -1065,6 +1110,8 @@ def plan(tier):
     raises, nothing may have changed); the same with a validating user priority_key; tasks that are falsy; tasks that
     reach the queue as equal but never identical objects; None as a task."""
     t3 = TASKS[:3]
+    if os.environ.get(OPT_ENV):
+        return [(Spec(1, **REDUCED), 5), (Spec(None, **REDUCED), 4), (Spec(1, task_kind='falsy', **REDUCED), 4)]
     if tier == 'quick':
         return [(Spec(1), 6), (Spec(2, starts=SIX), 3), (Spec(None), 4),
                 (Spec(1, tasks=t3, prios=NUMERIC_PRIOS, reads='reduced'), 4),
@@ -1163,6 +1210,10 @@ def run(ctx):
         sup['scenarios'].append(stats)
     sup['operations'] = sum(s['ops'] for s in sup['scenarios'])
     cov['native_scale_supplement'] = sup
+    if not os.environ.get(OPT_ENV) and not stopped:
+        cov['optimized_interpreter'] = optimized_child(ctx)
+        ctx.note('python -O child: exit %s, %d searches' % (cov['optimized_interpreter']['exit'],
+                                                          len(cov['optimized_interpreter']['searches'])))
     ctx.note('directed supplement (not exhaustive): %d scenarios, %d operations, up to %d entries in %d sub-lists'
              % (len(dres), sup['operations'], max([s['max_entries'] for s in sup['scenarios']] or [0]),
                 max([s['max_sublists'] for s in sup['scenarios']] or [0])))
@@ -1197,6 +1248,8 @@ def replay(ctx, data):
     install_guard()
     HANGS[0] = 0
     case = data['case']
+    if case.get('kind') == 'optimized-child':
+        return optimized_child(ctx, only=case['child_signature'])
     msgs = []
     try:
         if 'directed' in case:
